@@ -566,6 +566,13 @@ func c19Streams(a *ChildArgs, r *rand.Rand, avoid map[string]bool, dir string) {
 			}
 		}
 	}
+	// inline texts with characters that also occur in file names
+	for _, q := range []string{"SELECT a / b FROM t", "SELECT a /* c */ FROM t", "SELECT 'x/y.sql' FROM t", "SELECT a FROM t WHERE p = 'q.sql'", "select a from t where b = 'C:\\dir'", "SELECT a FROM"} {
+		ok := c19LibAccepts(q)
+		for _, c := range [][]string{{"validate"}, {"parse"}, {"format"}} {
+			judge(c[0]+"-inline-pathlike", c19Exec(dir, nil, append(c, q)...), ok, append(c, q))
+		}
+	}
 	// option values at and beyond their sensible range
 	os.WriteFile(filepath.Join(dir, "o.sql"), in, 0644)
 	for _, o := range [][]string{{"--indent", "-1"}, {"--indent", "0"}, {"--indent", "64"}, {"--max-line", "-5"}, {"--max-line", "0"}, {"--indent", "-100000"}} {
